@@ -66,7 +66,7 @@ def main():
             for c in checks:
                 cenv = dict(os.environ, VERIF_REPO=wt, VERIF_SEED=a.seed, VERIF_OUT=wt + '_out')
                 cenv.pop('PYTHONPATH', None)
-                rcc, oc = sh([PY, '-B', '-m', 'verif', 'check', c, '--tier', 'quick', '--budget', a.budget], cwd='/verif', env=cenv, timeout=3600)
+                rcc, oc = sh([PY, '-B', '-m', 'verif', 'check', c, '--tier', 'quick', '--budget', a.budget], cwd=os.environ.get('EVAL_VERIF_DIR', '/verif'), env=cenv, timeout=3600)
                 v = [l for l in oc.splitlines() if l.startswith('violation')]
                 res['checks'][c] = {'rc': rcc, 'violation_classes': len(v), 'first': [x[:300] for x in v[:3]],
                                     'harness': [l[:400] for l in oc.splitlines() if 'HARNESS' in l][:2]}
